@@ -303,7 +303,8 @@ def _compute_stm(dynsys, x0, tf, steps=2000, forward=1, method: Literal["fixed",
     Notes
     -----
     - STM initialized as 6x6 identity matrix at t=0
-    - Backward integration uses DirectedSystem with momentum sign flipping
+    - Backward integration reverses the complete variational system, so the
+      result is the derivative of the backward flow x0 -> phi_{-tf}(x0)
     - Combined 42D system enables simultaneous trajectory and linearization
     - STM satisfies d(Phi)/dt = F(x(t)) * Phi(t) where F is the Jacobian
 
@@ -326,7 +327,10 @@ def _compute_stm(dynsys, x0, tf, steps=2000, forward=1, method: Literal["fixed",
         steps=steps,
         method=method,
         order=order,
-        flip_indices=slice(36, 42),
+        # Backward propagation must reverse the whole 42-D variational system:
+        # reversing only the state block integrates the STM with +F along the
+        # reversed trajectory, which is not the derivative of any flow.
+        flip_indices=None,
         **kwargs
     )
 
